@@ -4,7 +4,7 @@ import "testing"
 
 func BenchmarkShard(b *testing.B) {
 	for i := 0; i < b.N; i++ {
-		s := &searcher{poolKind: "clone", states: map[string]struct{}{}, viols: map[string]string{}}
+		s := &searcher{poolKind: "clone", states: map[[16]byte]struct{}{}, viols: map[string]string{}}
 		s.run([]uint8{evMark + 2, evMark + 4}, 3)
 		b.ReportMetric(float64(s.trans), "trans")
 	}
